@@ -6,7 +6,7 @@ From Coq Require Import List ZArith QArith Lia Bool Permutation.
 From PV Require Import lib.Sx lib.Str lib.Result model.GenScc model.SccLen model.SccTime model.SccStash model.SccDecoder model.SccPopon
                        model.SccTokenise.
 From PV Require Import spec.Spec608 spec.SpecScc05 spec.SpecScc05Inline spec.SpecSccTime.
-From PV Require Import proofs.SccPoponFacts proofs.SccPoponStage3 proofs.SccPoponStage4 proofs.SccPoponStage6 proofs.SccPoponStage7
+From PV Require Import proofs.SccPoponFacts proofs.SccPoponStage1 proofs.SccPoponStage3 proofs.SccPoponStage4 proofs.SccPoponStage6 proofs.SccPoponStage7
                        proofs.SccPoponStage8 proofs.SccPoponStage9 proofs.SccLineLayoutFacts proofs.SccTokeniseFacts proofs.SccTextFacts
                        proofs.SccOrderFacts proofs.SccInlineEdmFacts.
 Import ListNotations.
@@ -91,4 +91,55 @@ Proof.
     - cbn [after_show ev_time]. repeat split; try exact I; vm_compute; reflexivity. }
   destruct E as (evs & spans & E1 & E2 & E3 & E4).
   exact (popon_row_order_free_inline true 0 _ _ _ (lit "00:00:05:00") ordw_a ordw_b evs spans (perm_swap _ _ _) eq_refl Hck E1 E3 E4 E2).
+Qed.
+
+(* ---- for builder sccw: a row of basic characters addressed by the writer's preamble code is a row of the domain ------- *)
+Lemma row_cells_ch : forall line acc ital, row_cells (map Ch line) acc ital = acc ++ map (fun c => Cell c ital) line.
+Proof.
+  induction line as [|c t IH]; intros acc ital; [cbn [map row_cells]; rewrite app_nil_r; reflexivity|].
+  cbn [map row_cells]. rewrite IH, <- app_assoc. reflexivity.
+Qed.
+
+Lemma items_ok_ch : forall line prev, forallb is_basic line = true -> items_ok (map Ch line) prev = true.
+Proof.
+  induction line as [|c t IH]; intros prev H; [reflexivity|]. rewrite forallb_cons in H. apply andb_true_iff in H. destruct H as [H1 H2].
+  cbn [map items_ok]. rewrite H1, (IH _ H2). reflexivity.
+Qed.
+
+Theorem writer_row_ok : forall row u line, 1 <= row <= 15 -> (u = 16 \/ u = 17) -> forallb is_basic line = true ->
+  line <> [] -> hd 0 line <> 32 -> last line 0 <> 32 -> (length line <= 32)%nat ->
+  row_ok (mkRow row 0 0 u (map Ch line)) = true.
+Proof.
+  intros row u line Hr Hu Hb Hne Hh Hl Hn. unfold row_ok, cells_of, rw_ital. cbv zeta.
+  cbn [rw_row rw_indent rw_tab rw_style rw_items]. rewrite row_cells_ch, (items_ok_ch _ _ Hb). cbn [app].
+  replace (is_italic_attr u) with false by (destruct Hu as [->| ->]; reflexivity). cbn [Z.eqb andb].
+  replace (1 <=? row) with true by lia. replace (row <=? 15) with true by lia.
+  replace (0 <=? u) with true by lia. replace (u <? 18) with true by lia. rewrite map_length.
+  replace (0 + 0 + Z.of_nat (length line) <=? 32) with true by lia.
+  assert (Hv : existsb cell_vis (map (fun c => Cell c false) line) = true).
+  { destruct line as [|c t]; [congruence|]. cbn [map existsb cell_vis hd] in *. apply Z.eqb_neq in Hh. rewrite Hh. reflexivity. }
+  assert (H1 : match map (fun c => Cell c false) line with c :: _ => cell_space c | [] => true end = false).
+  { destruct line as [|c t]; [congruence|]. cbn [map cell_space hd] in *. apply Z.eqb_neq. exact Hh. }
+  assert (H2 : cell_space (last (map (fun c => Cell c false) line) Opt) = false).
+  { clear - Hne Hl. induction line as [|c t IH]; [congruence|]. destruct t as [|c' t'].
+    - cbn [map last cell_space] in *. apply Z.eqb_neq. exact Hl.
+    - change (last (map (fun c => Cell c false) (c :: c' :: t')) Opt) with (last (map (fun c => Cell c false) (c' :: t')) Opt).
+      apply IH; [discriminate|exact Hl]. }
+  rewrite Hv, H1, H2. vm_compute. reflexivity.
+Qed.
+
+Lemma toks_map_ch : forall line, flat_map toks_of_item (map Ch line) = map TCh line.
+Proof. induction line as [|c t IH]; [reflexivity|]. cbn [map flat_map toks_of_item app]. rewrite IH. reflexivity. Qed.
+
+(* the words of such a row: the preamble code twice, then the characters in pairs *)
+Theorem writer_row_emit : forall row u line,
+  emit_row true (mkRow row 0 0 u (map Ch line)) = [pac_word row u; pac_word row u] ++ pack true (map TCh line) None.
+Proof.
+  intros row u line. unfold emit_row, pac_unit, pac_attr. cbn [rw_row rw_indent rw_tab rw_style rw_items].
+  rewrite toks_map_ch. reflexivity.
+Qed.
+
+Example writer_row_instance : row_ok (mkRow 15 0 0 16 (map Ch [72; 105; 32; 116; 104; 101; 114; 101])) = true.
+Proof.
+  apply writer_row_ok; [lia|left; reflexivity|vm_compute; reflexivity|discriminate|cbn [hd]; lia|cbn [last]; lia|cbn [length]; lia].
 Qed.
